@@ -334,17 +334,23 @@ func suiteDiffReport(c *Ctx) error {
 				}
 			}
 			if !found {
-				// acceptable only if both sides were paired with an equally similar function (same shape twin)
-				okOld, okNew := false, false
+				// acceptable only if the NEW function was paired with an equally similar old function (a twin of
+				// the same shape) and the old one either got such a twin too or is left over because the old
+				// file has more functions of this shape than the new one (a twin was deleted: which of the two
+				// identical functions "is" the renamed one cannot be told)
+				okOld, okNew, oldPaired := false, false, false
 				for _, m := range out.TopologyMatches {
-					if m.OldFunction == p.oldName && !m.MatchedByName && m.Similarity == 1.0 {
-						okOld = true
+					if m.OldFunction == p.oldName {
+						oldPaired = true
+						if !m.MatchedByName && m.Similarity == 1.0 {
+							okOld = true
+						}
 					}
 					if m.NewFunction == p.newName && !m.MatchedByName && m.Similarity == 1.0 {
 						okNew = true
 					}
 				}
-				if !(okOld && okNew) {
+				if !(okNew && (okOld || !oldPaired)) {
 					viol("C19", "C19/rename-reported-as-remove-plus-add", fmt.Sprintf("%s was only renamed to %s but the diff does not pair them", p.oldName, p.newName))
 				}
 			}
